@@ -27,7 +27,7 @@ def load_prop(prop):
     return importlib.import_module("pyxabmon.props.%s" % prop.lower())
 
 
-def run_sharded(prop, cases, wall_per_shard):
+def run_sharded(prop, cases, wall_per_shard, wall_scale=1):
     """returns (results by case index, unfinished indices, stderr tails)"""
     if not cases:
         return {}, [], []
@@ -48,6 +48,7 @@ def run_sharded(prop, cases, wall_per_shard):
         env["PYTHONDONTWRITEBYTECODE"] = "1"
         env.setdefault("PYTHONHASHSEED", "0")
         env["OMP_NUM_THREADS"] = env["OPENBLAS_NUM_THREADS"] = env["MKL_NUM_THREADS"] = "1"
+        env["PYXABMON_WALL_SCALE"] = str(wall_scale)
         for j, idxs in enumerate(shards):
             fin = os.path.join(tmp, "in%d.json" % j)
             fout = os.path.join(tmp, "out%d.jsonl" % j)
@@ -130,6 +131,20 @@ def main(argv=None):
     all_cases = cases + probes
     wall = getattr(M, "WALL", {"quick": 900, "thorough": 6 * 3600})[tier]
     results, unfinished, errs = run_sharded(prop, all_cases, wall)
+    # a wall-clock watchdog is a guard against hangs of the harness, never a verdict; on a loaded machine it can fire
+    # on a slow but healthy case.  Such cases (and cases a killed shard never reached) get one more run with an
+    # eight-fold limit before they make the check inconclusive.  Hangs of PyXAB itself are decided on logical steps
+    # (StepBudget) and are not affected.
+    again = sorted(set(unfinished) | {i for i, r in results.items() if r.get("watchdog")})
+    retried = 0
+    if again and len(again) <= 200:
+        retried = len(again)
+        r2, u2, e2 = run_sharded(prop, [all_cases[i] for i in again], wall, wall_scale=8)
+        for k, r in r2.items():
+            r["i"] = again[k]
+            results[again[k]] = r
+        unfinished = [again[k] for k in u2]
+        errs += e2
 
     extra = {}
     extra_viol = []
@@ -263,6 +278,7 @@ def main(argv=None):
         "inconclusive_reasons": inconclusive,
         "crashes_ignored_by_this_check": dict(crashes_other),
         "workers": NPROC,
+        "cases_run_again_after_a_wall_clock_watchdog": retried,
     }
     for k, v in extra.items():
         if k not in ("obs", "evaluations", "sigs", "samples"):
